@@ -18,6 +18,9 @@ HARNESS = {
                 repo=['librfn/wavheader.c', 'librfn/pack.c', 'librfn/string.c', 'librfn/util.c', 'librfn/posix/time_posix.c']),
     'fibre': dict(cpp=['h/h_fibre.cpp'], c=['adp/adp_fibre.c'],
                   repo=['librfn/fibre.c', 'librfn/list.c', 'librfn/messageq.c', 'librfn/util.c', 'librfn/posix/time_posix.c']),
+    'console': dict(cpp=['h/h_console.cpp'], c=['adp/adp_console.c'],
+                    repo=['librfn/console.c', 'librfn/fibre.c', 'librfn/list.c', 'librfn/messageq.c', 'librfn/ringbuf.c',
+                          'librfn/util.c', 'librfn/posix/time_posix.c']),
     'list': dict(cpp=['h/h_list.cpp'], c=['adp/adp_list.c'], repo=['librfn/list.c']),
 }
 
@@ -187,6 +190,36 @@ PROPS = {
         ],
         require={'length>=44-and-magic-present': 1000, 'accepted': 1000, 'structured-truncated': 1000, 'raw-bytes': 1000},
         assumptions=['declared lengths stay far below 2^31 (return type int)'],
+    ),
+    'C15': dict(
+        title='Console line editing, tokenising and dispatch are exact and memory-safe',
+        rule='case = fresh console_t in an exact heap block (ASan), both reset hooks, 0-7 registered capturing commands with short '
+             'names that are prefixes of one another (exit at once or yield 1-3 times), then 1-6 segments, each a structured line '
+             '(command token: registered / built-in / unknown / near miss; 0-4 arguments bare or single/double quoted; blanks and '
+             'tabs; optional long argument reaching 70-85 characters; optional editing noise with known effect: junk+backspaces '
+             'anywhere, Ctrl-C after garbage, backspace on an empty line) or a raw burst over the stated alphabet, delivered by '
+             'console_process per character, by console_putchar in chunks of <=15 with scheduler passes, or as one console_eval '
+             'string driven as a protothread; plus registration scenarios of 25-35 names (capacity 29). A line-editing model '
+             'runs on every stream; each completed line is either inside the fragment the statement pins down (exact command, '
+             'argc and all four argv strings are asserted) or gets the tier-1 clauses (argc 1..4, all argv inside the buffer and '
+             'terminated, argv[0] equals the registered name, <=1 registered dispatch per completed line, none otherwise). '
+             'enum stage = every stream of the given length over {a, space, single quote, double quote, BS, ^C, NL} with command '
+             '"a" registered. Non-trivial: a line with a quoted argument, an edit keystroke or length>=70; a registration case '
+             'that reaches the full table; an injection longer than the ring. Distinct = distinct tapes.',
+        stages=[
+            dict(h='console', mode='rc', what='random streams, three delivery mechanisms, registration',
+                 quick=dict(cases=100000, len=600), thorough=dict(cases=3000000, len=600)),
+            dict(h='console', mode='enum', what='all streams over a reduced alphabet', params=dict(kind=4),
+                 quick=dict(params=dict(len=7)), thorough=dict(params=dict(len=9))),
+        ],
+        require={'exact-dispatch-checked': 5000, 'exact-four-tokens': 500, 'line-with-quoted-argument': 5000, 'edit-backspace': 5000,
+                 'edit-ctrl-c': 2000, 'line-completed-by-buffer-fill': 300, 'console_eval': 3000, 'registration-reached-full-table': 500,
+                 'via-console_putchar': 5000, 'via-console_process': 5000, 'tier1-only-line': 2000},
+        assumptions=['tokenizer corners the statement does not pin down get the tier-1 clauses only: leading white space, a quote as first '
+                     'character or inside a bare word, closing quote followed by a non-space, adjacent different quotes, empty quoted '
+                     'strings, a fifth token, unterminated quotes, everything after a buffer-fill completion',
+                     'input bytes >= 0x80, NUL and control characters other than BS, Ctrl-C, TAB and NL are outside the stated alphabet',
+                     'built-in help is exercised only through console_process (it keeps function-static state that must not leak between cases)'],
     ),
     'C16': dict(
         title='Bit-counting helpers equal their mathematical definitions on all inputs',
